@@ -3,7 +3,8 @@
    theories/TraceCodesThms.v; tie: correspondence of tools/props/C19.py (generated and malformed texts;
    custom tables through TracesParser) and the exhaustive separator-set check against the interpreter. *)
 From Coq Require Import NArith List Bool.
-From Kd Require Import theories.Base theories.Printers theories.TraceCodes theories.TraceCodesThms theories.Pairing.
+From Kd Require Import theories.Base theories.Printers theories.TraceCodes theories.TraceCodesThms theories.Pairing
+  theories.TraceCodesIR gen.GenTraceCodes theories.TraceCodesRefine.
 Import ListNotations.
 Open Scope N_scope.
 
@@ -47,3 +48,9 @@ Example c19_nontrivial :
   from_text t = POk [(0x40c0548, [66;83;67;95;115]); (0x40c054c, [66;83;67]); (0x40c0548, [97;103])] /\
   lookup_last 0x40c0548 [(0x40c0548, [66;83;67;95;115]); (0x40c054c, [66;83;67]); (0x40c0548, [97;103])] = Some [97;103].
 Proof. vm_compute. split; reflexivity. Qed.
+
+(* the code refines the model: the dict comprehension of from_trace_codes_text with the token positions and the base that
+   tools/translate/tr_codes.py reads off the current source (key expression evaluated before the value expression) is the
+   model's from_text, for every text *)
+Theorem c19_code_refines_model : forall t, from_text_p gen_codes t = from_text t.
+Proof. exact codes_code_refines. Qed.
